@@ -45,7 +45,7 @@ def showOutcome : Outcome → String
 /-- run one operation of the model on a connection with its read lock (lock discipline = regenerated facts);
 `inflight`: the request was written before an earlier caller's failure closed the Conn -/
 def runInstL (inflight : Bool) (topic : Bytes) (i : OpInst) (cl : Conn × Bool) : Option (Outcome × (Conn × Bool)) :=
-  if i.name == "fetch" then some (connFetchL Gen.ConnLegacy.lockFacts fetchFixed i.ver i.offset idealBody cl)
+  if i.name == "fetch" then some (connFetchL Gen.ConnLegacy.lockFacts fetchFixed i.ver i.offset headerBody cl)
   else (specOf i.name).map fun o => connDoL Gen.ConnLegacy.lockFacts inflight o i.ver topic cl
 
 def runInst (topic : Bytes) (i : OpInst) (c : Conn) : Option (Outcome × Conn) :=
@@ -54,8 +54,9 @@ def runInst (topic : Bytes) (i : OpInst) (c : Conn) : Option (Outcome × Conn) :
 /-- REFERENCE-side judgement of one result on a fully delivered frame (Spec/ConnFrames.lean only, no model):
 `none` = the body is not an encoding of the Kafka layout (a harness error, not a property failure);
 `some b` = the frame is well-formed and the result `res` is / is not acceptable for it:
-  * a well-formed frame never yields a non-kafka failure — except the fetch corner "no error code, empty record set,
-    high watermark ≠ fetch offset", which the Conn answers with io.ErrUnexpectedEOF (documented, not part of C11);
+  * a well-formed frame never yields a non-kafka failure — except the fetch corner "no error code, record set empty or
+    shorter than one message / batch header, high watermark ≠ fetch offset", which the Conn answers with
+    io.ErrUnexpectedEOF (documented, not part of C11);
   * a reported kafka error code is one of the codes present in the frame's error fields (fetch at the watermark
     without records: RequestTimedOut = 7);
   * a frame whose error fields are all 0 never yields a kafka error (same fetch exception). -/
@@ -67,7 +68,12 @@ def specJudge (i : OpInst) (res : String) : Option Bool :=
     let isFetch := i.name == "fetch"
     let setLen : Int := match c.evs with | .int n :: _ => n | _ => 0
     let noErr := errs.all (· == 0)
-    let emptyBelow := isFetch && noErr && setLen == 0 && c.hwm != i.offset
+    -- "empty" includes a set too short for one message / batch header (message_reader.go readHeader: errShortRead)
+    let setBytes := i.body.drop (i.body.length - setLen.toNat)
+    let need : Int := if setLen < 17 then 17 else headerNeed (setBytes.getD 16 0)
+    let emptyBelow := isFetch && noErr && setLen < need && c.hwm != i.offset
+    -- a set whose first entry carries an unknown magic byte is not an encoding of anything
+    if isFetch && setLen ≥ 17 && setBytes.getD 16 0 > 2 then none else
     let atWatermark := isFetch && noErr && c.hwm == i.offset
     if res.startsWith "fail" then some emptyBelow
     else if res == "ok" then some (!emptyBelow)
